@@ -317,3 +317,145 @@ func specLeaf(i int) Hash {
 	h[31] = byte(i*7 + 1)
 	return h
 }
+
+// ---- placed nodes with the slot range they stand for -------------------------------------------------
+
+type specNode struct {
+	Row  uint8  // row at which the node is placed
+	Off  uint64 // offset in that row
+	Lo   uint64 // first slot of the range the node stands for
+	H    uint8  // log2 of the size of that range
+	Hash Hash
+	Two  bool // both children have survivors (a real parent node)
+}
+
+// PlacedNodes: like Placed but with the slot range of every node; keyed by position in `rows` coordinates.
+func (f *specForest) PlacedNodes(rows uint8) map[uint64]specNode {
+	out := map[uint64]specNode{}
+	var place func(lo uint64, h uint8, row uint8, off uint64, standLo uint64, standH uint8)
+	place = func(lo uint64, h uint8, row uint8, off uint64, standLo uint64, standH uint8) {
+		hash, ok := f.cnode(lo, h)
+		if !ok {
+			return
+		}
+		if h == 0 {
+			out[specPos(row, off, rows)] = specNode{row, off, standLo, standH, hash, false}
+			return
+		}
+		half := uint64(1) << (h - 1)
+		_, lok := f.cnode(lo, h-1)
+		_, rok := f.cnode(lo+half, h-1)
+		switch {
+		case lok && rok:
+			out[specPos(row, off, rows)] = specNode{row, off, standLo, standH, hash, true}
+			place(lo, h-1, row-1, 2*off, lo, h-1)
+			place(lo+half, h-1, row-1, 2*off+1, lo+half, h-1)
+		case lok:
+			place(lo, h-1, row, off, standLo, standH)
+		case rok:
+			place(lo+half, h-1, row, off, standLo, standH)
+		}
+	}
+	for _, t := range f.trees() {
+		off := t.base >> t.row
+		if _, ok := f.cnode(t.base, t.row); !ok {
+			out[specPos(t.row, off, rows)] = specNode{t.row, off, t.base, t.row, Hash{}, false}
+			continue
+		}
+		place(t.base, t.row, t.row, off, t.base, t.row)
+	}
+	return out
+}
+
+// UpdateDataSpec: the update data of a block, from the C11 statement.
+func UpdateDataSpec(pre *specForest, dels []Hash, adds []Hash) UpdateData {
+	var ud UpdateData
+	ud.PrevNumLeaves = pre.n
+	rowsPre := specTreeRows(pre.n)
+	after := pre.clone()
+	after.Apply(dels, nil)
+	fin := after.clone()
+	fin.Apply(nil, adds)
+	rowsFin := specTreeRows(fin.n)
+
+	// ToDestroy: empty roots overwritten by the additions, in order of destruction, post-block coordinates.
+	step := after.clone()
+	ud.ToDestroy = []uint64{}
+	for _, a := range adds {
+		n := step.n
+		for h := uint8(0); (n>>h)&1 == 1; h++ {
+			base := (n >> (h + 1)) << (h + 1)
+			if _, ok := step.cnode(base, h); !ok {
+				ud.ToDestroy = append(ud.ToDestroy, specPos(h, base>>h, rowsFin))
+			}
+		}
+		step.Apply(nil, []Hash{a})
+	}
+
+	// NewDel*: every pre-block node on a path from a deleted target to its root, with its pre-block
+	// position and the hash its subtree has after the deletions (zero if nothing survives).
+	lp := pre.LeafPositions(rowsPre)
+	var targets []uint64
+	for _, d := range dels {
+		targets = append(targets, lp[d])
+	}
+	nodes := pre.PlacedNodes(rowsPre)
+	var dpos []uint64
+	for q := range pre.pathNodes(targets, rowsPre) {
+		dpos = append(dpos, q)
+	}
+	sort.Slice(dpos, func(a, b int) bool { return dpos[a] < dpos[b] })
+	for _, q := range dpos {
+		nd := nodes[q]
+		hv, _ := after.cnode(nd.Lo, nd.H)
+		ud.NewDelPos = append(ud.NewDelPos, q)
+		ud.NewDelHash = append(ud.NewDelHash, hv)
+	}
+
+	// NewAdd*: every added leaf and every child of a parent created by the additions, final positions.
+	finNodes := fin.PlacedNodes(rowsFin)
+	addm := map[uint64]Hash{}
+	for _, nd := range finNodes {
+		isAdded := nd.H == 0 && nd.Lo >= pre.n && !nd.Two && nd.Hash != (Hash{})
+		_ = isAdded
+	}
+	flp := fin.LeafPositions(rowsFin)
+	for _, a := range adds {
+		addm[flp[a]] = a
+	}
+	for _, nd := range finNodes {
+		if !nd.Two {
+			continue
+		}
+		// the node's own subtree range: recompute from its children; a created parent contains an added slot
+		if nd.Lo+(uint64(1)<<nd.H) <= pre.n {
+			continue
+		}
+		// its real range may be smaller than the range it stands for; find whether any added leaf is below it
+		below := false
+		for _, a := range adds {
+			p := flp[a]
+			r, o, _ := specRowOff(p, rowsFin)
+			if r < nd.Row && (o>>(nd.Row-r)) == nd.Off {
+				below = true
+			}
+		}
+		if !below {
+			continue
+		}
+		l := specPos(nd.Row-1, 2*nd.Off, rowsFin)
+		rr := specPos(nd.Row-1, 2*nd.Off+1, rowsFin)
+		addm[l] = finNodes[l].Hash
+		addm[rr] = finNodes[rr].Hash
+	}
+	var apos []uint64
+	for p := range addm {
+		apos = append(apos, p)
+	}
+	sort.Slice(apos, func(a, b int) bool { return apos[a] < apos[b] })
+	for _, p := range apos {
+		ud.NewAddPos = append(ud.NewAddPos, p)
+		ud.NewAddHash = append(ud.NewAddHash, addm[p])
+	}
+	return ud
+}
